@@ -38,6 +38,11 @@ Finish(i) == /\ st[i].phase \in {"new", "running"}
              /\ st' = [st EXCEPT ![i] = [@ EXCEPT !.days = Horizon, !.phase = "done"]]
              /\ hist' = Append(hist, [op |-> "finish", i |-> i])
 
+\* running a finished instance again (run_model re-initialises it): the result is again that of its configuration run to termination
+Rerun(i) == /\ st[i].phase = "done"
+            /\ UNCHANGED st
+            /\ hist' = Append(hist, [op |-> "rerun", i |-> i])
+
 \* an attempt to build instance i from a configuration the model rejects: the attempt raises, nothing exists afterwards - and nothing
 \* may be left behind that another instance could observe (class-level defaults, module-level tables)
 Reject(i, c) == /\ st[i].phase = "none"
@@ -47,6 +52,7 @@ Reject(i, c) == /\ st[i].phase = "none"
 Next == /\ Len(hist) < MaxOps
         /\ \/ \E i \in Inst, c \in Cfgs : New(i, c)
            \/ \E i \in Inst, c \in BadCfgs : Reject(i, c)
+           \/ \E i \in Inst : Rerun(i)
            \/ \E i \in Inst, k \in StepSizes : Step(i, k)
            \/ \E i \in Inst : Finish(i)
 Spec == Init /\ [][Next]_vars
@@ -59,7 +65,7 @@ RECURSIVE Days(_, _)
 Days(h, n) == IF n = 0 THEN 0
               ELSE LET o == h[n] p == Days(h, n - 1)
                    IN IF o.op = "new" THEN 0
-                      ELSE IF o.op = "finish" THEN Horizon
+                      ELSE IF o.op \in {"finish", "rerun"} THEN Horizon
                       ELSE IF p + o.k >= Horizon THEN Horizon ELSE p + o.k
 \* C10: the result is a function of the instance's own configuration and own call history
 Isolation == \A i \in Inst : st[i].phase # "none" =>
